@@ -112,6 +112,18 @@ def run(chk, tier, seed):
                     for i, (a, b, c) in enumerate(triples))
     msrc += "".join("let fs%d_%d = factorial(%d, %d);\n" % (st, n, n, st) for st in (2, 3) for n in range(0, 26))
     jobs.append({"id": "roots", "src": msrc, "observe": NAMES.findall(msrc), "_roots": roots, "_triples": triples, "limits": {"calls": 10 ** 7}})
+    # the whole triangle: every binom(n, k), 0 <= k <= n <= N, row by row (the running product changes representation at
+    # different steps for different n), and every two-part multinomial against the binomial
+    N = 150 if tier == "quick" else 400
+    for lo in range(0, N + 1, 25):
+        rows = list(range(lo, min(lo + 25, N + 1)))
+        tsrc = "".join("let row%d = range(0, %d).map((k: int) -> {binom(%d, k)}).to_array();\n" % (n_, n_ + 1, n_) for n_ in rows)
+        jobs.append({"id": "tri%d" % lo, "src": tsrc, "observe": ["row%d" % n_ for n_ in rows], "_rows": rows, "max_elems": N + 2, "limits": {"calls": 10 ** 7}})
+    M = 40 if tier == "quick" else 90
+    for a in range(0, M + 1, 10):
+        psrc = "".join("let mp%d = range(0, %d).map((b: int) -> {multinom([%d, b])}).to_array();\nlet mq%d = range(0, %d).map((b: int) -> {binom(%d + b, b)}).to_array();\n"
+                       % (a_, M + 1, a_, a_, M + 1, a_) for a_ in range(a, min(a + 10, M + 1)))
+        jobs.append({"id": "mpair%d" % a, "src": psrc, "observe": NAMES.findall(psrc), "_as": list(range(a, min(a + 10, M + 1))), "_M": M, "max_elems": M + 2, "limits": {"calls": 10 ** 7}})
     # integers that a double holds exactly: int -> float -> int (floor / ceil / trunc) is the identity on them
     exact = set()
     for k in (0, 1, 30, 31, 32, 52, 53, 54, 62, 63, 64, 65, 100, 127, 128, 511, 1000, 1023):
@@ -151,6 +163,28 @@ def run(chk, tier, seed):
                         continue
                     ev(j, {"ev": "text", "a": limbs(x), "parsed": limbs(d["v"])}, "%s(to_float(%d))" % (fn, x))
                     ev(j, {"ev": "repr", "a": limbs(d["v"]), "short": d["repr"] == "S"}, "representation of %s(to_float(%d)) = %s" % (fn, x, d["v"]))
+            continue
+        if j["id"].startswith("tri"):
+            for n_ in j["_rows"]:
+                row = v.get("row%d" % n_, {})
+                xs = row.get("v") or []
+                if row.get("t") != "seq" or len(xs) != n_ + 1 or any(x.get("t") != "int" for x in xs):
+                    chk.violation("row %d of the binomial triangle is not %d integers: %s" % (n_, n_ + 1, str(row)[:200]), {"kind": "bigint", "source": j["src"], "binding": "row%d" % n_}, finding_key="binom:row")
+                    continue
+                if int(xs[0]["v"]) != 1:
+                    chk.violation("binom(%d, 0) = %s" % (n_, xs[0]["v"]), {"kind": "bigint", "source": j["src"], "binding": "row%d" % n_})
+                for k in range(1, n_ + 1):
+                    ev(j, {"ev": "binom", "n": n_, "k": k, "r": limbs(xs[k]["v"]), "prev": limbs(xs[k - 1]["v"])}, "binom(%d, %d)" % (n_, k))
+            continue
+        if j["id"].startswith("mpair"):
+            for a_ in j["_as"]:
+                mp, mq = v.get("mp%d" % a_, {}), v.get("mq%d" % a_, {})
+                xs, ys = mp.get("v") or [], mq.get("v") or []
+                if mp.get("t") != "seq" or len(xs) != j["_M"] + 1 or len(ys) != len(xs) or any(x.get("t") != "int" for x in xs + ys):
+                    chk.violation("multinom([%d, b]) / binom(%d + b, b) for b = 0..%d are not integers: %s" % (a_, a_, j["_M"], str(mp)[:200]), {"kind": "bigint", "source": j["src"], "binding": "mp%d" % a_}, finding_key="multinom")
+                    continue
+                for b_ in range(len(xs)):
+                    ev(j, {"ev": "multinom", "r": limbs(xs[b_]["v"]), "c1": limbs(ys[b_]["v"]), "c2": limbs(1)}, "multinom([%d, %d]) against binom(%d, %d)" % (a_, b_, a_ + b_, b_))
             continue
         if j["id"] == "roots":
             for i, (a, b) in enumerate(j["_roots"]):
@@ -303,7 +337,7 @@ def run(chk, tier, seed):
                        "1-400 bit}; per pair ~60 builtin results turned into events for XrBigInt; factorial(0..30) and binomial "
                        "rows; non-trivial = distinct program")
     chk.assumptions += ["int<->float conversion exactness and `div` (float result) are not covered (no reals in TLC)",
-                        "gcd maximality is checked through the interpreter's own gcd of the cofactors; multinomial is not covered"]
+                        "gcd maximality is checked through the interpreter's own gcd of the cofactors; multinomials of more than three parts are not covered"]
 
 
 def replay(chk, path):
